@@ -56,10 +56,8 @@ func (k *Key) SizedUnmarshalBinary(data []byte) (int, error) {
 
 // Equal compares the key with some other key.
 func (k Key) Equal(other Key) bool {
-	if k != nil {
-		return bytes.Equal(k, other)
-	}
-	return other == nil
+	// NOTE: A nil key and an empty key are the same (empty) key.
+	return bytes.Equal(k, other)
 }
 
 // Compare compares the key with some other key and returns 0 if both
